@@ -97,6 +97,31 @@ def cli_args(seed=None, width=None, length=None, rb=None, lb=None, tb=None, lt=N
     return a
 
 
+def run_generator_cli_bare(args):
+    """roberta_generator.main() in an EMPTY scratch directory (no inputs/ sub-directory).  Returns
+    (kind, payload, listing of the directory afterwards)."""
+    import sys
+    r = repo()
+    d = tempfile.mkdtemp(prefix="condrew_bare_")
+    cwd, argv = os.getcwd(), sys.argv
+    os.chdir(d)
+    sys.argv = ["roberta_generator.py"] + list(args)
+    try:
+        try:
+            r.roberta_generator.main()
+            kind, payload = "ok", None
+        except SystemExit as e:
+            kind, payload = "exit", e
+        except Exception as e:
+            kind, payload = "exc", e
+        listing = sorted(os.path.relpath(os.path.join(dp, f), d) for dp, dn, fn in os.walk(d) for f in fn + dn)
+        return kind, payload, listing
+    finally:
+        sys.argv = argv
+        os.chdir(cwd)
+        shutil.rmtree(d, ignore_errors=True)
+
+
 def run_generator_cli(args, clean=True):
     """roberta_generator.main() in-process: argv patched, cwd = scratch dir with inputs/ (emptied first
     unless clean=False).  Returns (kind, payload, files): kind 'ok' | 'exc' | 'exit'; files = {name: bytes}
